@@ -8,7 +8,7 @@ from ..absint import Interp
 from ..effects import STATE_ATTRS, Effect, function_effects, self_callees, state_writes
 from ..fieldloop import field_loop_roles, interp_for
 from ..src import AnalysisError, M_INIT
-from ..sym import A, C, N, dotted, from_ast, show
+from ..sym import A, C, N, dotted, from_ast, show, walk as _walk
 from . import presence
 
 PROP = "C14"
@@ -158,6 +158,8 @@ def _independent_state(ctx) -> Dict[str, List[str]]:
 
 
 def rule_V2(ctx) -> None:
+    """state that can change independently of the fields is transferred to the copy on every path: the copy's attribute ends
+    up equal to the original's (assigned from it, or set to the constant the path has established the original to hold)"""
     mod = ctx.repo.mod(M_INIT)
     indep = _independent_state(ctx)
     if set(indep) - set(STATE_ATTRS):
@@ -165,30 +167,50 @@ def rule_V2(ctx) -> None:
     for name in ("__copy__", "__deepcopy__"):
         fn = mod.func(f"Message.{name}")
         ctx.analysed(f"Message.{name}")
-        src = ast.unparse(fn)
         selfname = fn.args.args[0].arg
+        src = ast.unparse(fn)
         updates = [n for n in ast.walk(fn) if isinstance(n, ast.Call) and isinstance(n.func, ast.Attribute) and n.func.attr == "update" and ast.unparse(n.func.value).endswith("__dict__")]
         wholesale = any(u.args and "__dict__" in ast.unparse(u.args[0]) and selfname in ast.unparse(u.args[0]) for u in updates) or "__dict__ = " in src
-        by_keyword = {k.arg for u in updates for k in u.keywords if k.arg} | \
-                     {key.value for u in updates for a in u.args if isinstance(a, ast.Dict) for key in a.keys if isinstance(key, ast.Constant)}
+        paths = interp_for(mod).run(fn)
+        ctx.count(len(paths))
         for attr, writers in sorted(indep.items()):
-            assigned = False
-            for n in ast.walk(fn):
-                if isinstance(n, (ast.Assign, ast.AugAssign)):
-                    for t in (n.targets if isinstance(n, ast.Assign) else [n.target]):
-                        if isinstance(t, ast.Attribute) and t.attr == attr:
-                            assigned = True
-                        if isinstance(t, ast.Subscript) and isinstance(t.slice, ast.Constant) and t.slice.value == attr:
-                            assigned = True
-                if isinstance(n, ast.Call) and ast.unparse(n.func) in ("setattr", "object.__setattr__") and any(isinstance(a, ast.Constant) and a.value == attr for a in n.args):
-                    assigned = True
             cname = f"{name}:transfers[{attr}]"
-            if assigned or wholesale or attr in by_keyword:
-                ctx.proved("V2", cname, mod.loc(fn))
-            else:
+            if wholesale:
+                ctx.proved("V2", cname, mod.loc(fn), "whole __dict__ handed over")
+                continue
+            orig = A(N(selfname), attr)
+            bad = None
+            n_ok = 0
+            for p in paths:
+                if p.outcome == "raise":
+                    continue
+                last = None
+                for e in p.events:
+                    if e.kind == "store":
+                        t = e.data[0]
+                        if (t[0] == "a" and t[2] == attr and t[1] != N(selfname)) or (t[0] == "sub" and t[2] == C(attr) and t[1][0] == "a" and t[1][2] == "__dict__" and t[1][1] != N(selfname)):
+                            last = e.data[1]
+                    if e.kind == "call" and dotted(e.data[1]) in ("setattr", "object.__setattr__") and len(e.data[2]) >= 3 and e.data[2][-2] == C(attr):
+                        last = e.data[2][-1]
+                if last is None:
+                    bad = bad or ("not-assigned", {show(k): v for k, v in p.valuation.items() if orig in list(_walk(k))})
+                elif last == orig:
+                    n_ok += 1
+                elif last[0] == "c" and p.valuation.get(orig) is not None and bool(last[1]) == p.valuation.get(orig) and isinstance(last[1], bool):
+                    n_ok += 1
+                else:
+                    bad = bad or ("other-value:" + show(last), {})
+            if bad and bad[0] == "not-assigned" and not n_ok:
                 ctx.refuted("V2", cname, "never-assigned", mod.loc(fn),
                             f"{attr} can change independently of the fields (written by {sorted(set(writers))}) but {name} rebuilds the message from its fields only and never assigns it on the copy",
                             "copy a message decoded from bytes with unknown fields / an empty received sub-message; compare bytes")
+            elif bad:
+                ctx.refuted("V2", cname, bad[0] + (":" + str(bad[1]) if bad[1] else ""), mod.loc(fn),
+                            f"on a path of {name} ({bad[1] or 'unconditional'}) the copy's {attr} is {bad[0]}: it keeps what the constructor computed from the field values instead of the "
+                            "original's value - a message whose flag is off but whose lazily created children make the constructor compute it on is copied as present",
+                            "m.inner.leaf (read only); copy.deepcopy(m) encodes an extra empty `inner`")
+            else:
+                ctx.proved("V2", cname, mod.loc(fn), f"{n_ok} paths")
     ctx.floor("V2", "independent state attributes", len(indep), 2)
 
 
